@@ -225,17 +225,27 @@ fn action_body(tag: usize) {
 
 extern "C" fn foreign_plain(sig: i32) {
     prev_called(PrevKind::Plain, sig, 0, 0, 1);
+    foreign_body();
 }
 extern "C" fn foreign_info(sig: i32, info: *mut libc::siginfo_t, ctx: *mut libc::c_void) {
     prev_called(PrevKind::Info, sig, info as usize, ctx as usize, 1);
+    foreign_body();
 }
 // a second foreign handler, installed by "somebody else" while the library's first registration of
 // that signal may be in progress
 extern "C" fn foreign_plain2(sig: i32) {
     prev_called(PrevKind::Plain, sig, 0, 0, 2);
+    foreign_body();
 }
 extern "C" fn foreign_info2(sig: i32, info: *mut libc::siginfo_t, ctx: *mut libc::c_void) {
     prev_called(PrevKind::Info, sig, info as usize, ctx as usize, 2);
+    foreign_body();
+}
+/// The body of somebody else's handler is ordinary code: other threads run meanwhile and another
+/// signal may interrupt it (the library installs its handler with an empty mask), so it contains a
+/// scheduling point like the harness-side actions do.
+fn foreign_body() {
+    sim::sp_user();
 }
 fn prev_called(kind: PrevKind, sig: i32, info: usize, ctx: usize, which: u8) {
     let _g = ShimGuard::new();
